@@ -260,6 +260,7 @@ class Fn:
         self._defs = None
         self.alias = {}
         self.roles = {}
+        self._nb_active = set()
         self._succ = None
         self._calls = None
         self._expr_cache = {}
@@ -485,6 +486,15 @@ class Fn:
                     return int(r if m.group(1) == "eq" else not r)
         if e[0] == "c" and isinstance(e[1], int):
             return e[1]
+        if e[0] == "discr":
+            # `match f(..) { Variant => .. }` on a local function that always returns one field-less variant
+            ec = self.enum_const(e[1])
+            if ec is not None:
+                adt = self.prog.adts.get(strip_ty(ec[0]))
+                if adt:
+                    for v in adt["variants"]:
+                        if v["name"] == ec[1] or v.get("discr") == ec[1]:
+                            return v.get("discr")
         if e[0] == "call" and isinstance(e[1], str) and e[1] in self.prog.fns:
             v = self.prog.ret_int_const(e[1])
             if v is not None:
@@ -757,7 +767,7 @@ class Fn:
         return self._debug_branches
 
     # ---- atoms -------------------------------------------------------------------------------
-    def edge_atoms(self, bb, lab, include_debug=False):
+    def edge_atoms(self, bb, lab, include_debug=False, expand=True):
         """atoms that hold when leaving block bb through the switch edge labelled lab.
         Branches that belong to a debug_assert! expansion yield no atoms: they do not exist in
         builds without debug assertions and must not count as guards."""
@@ -766,7 +776,42 @@ class Fn:
             return []
         d = self.operand_expr(t["discr"])
         dty = t.get("discr_ty", "")
-        return atoms_of(self, d, dty, lab)
+        ats = atoms_of(self, d, dty, lab)
+        return self._expand_named_bools(ats) if expand else ats
+
+    def _expand_named_bools(self, ats, depth=0):
+        """`let ok = a && b; if ok {..}`: the branch on the named boolean is a branch on a and on b.  A boolean local with
+        several definitions of which exactly one is not the constant false can only be true through that definition: its
+        value expression, and the conditions under which that definition is reached, hold on the true edge."""
+        if depth > 3:
+            return ats
+        out = list(ats)
+        for a in ats:
+            if a[0] != "truth" or a[2] is not True or a[1][0] != "v":
+                continue
+            loc = a[1][1]
+            key = ("nb", loc)
+            if key in self._nb_active:
+                continue
+            srcs = []
+            for bi, si, rv in self.defs.get(loc, []):
+                if bi not in self.live or rv is None:
+                    continue
+                e = self.call_expr(rv) if si == "call" else self.rvalue_expr(rv)
+                if self.const_of(e) == 0:
+                    continue
+                srcs.append((bi, e))
+            if len(srcs) != 1 or len(self.defs.get(loc, [])) < 2:
+                continue
+            bi, e = srcs[0]
+            self._nb_active.add(key)
+            try:
+                if self.const_of(e) != 1:
+                    out += self._expand_named_bools(bool_atoms(self, e, True), depth + 1)
+                out += self.dominating_atoms(bi)
+            finally:
+                self._nb_active.discard(key)
+        return out
 
     # ---- calls -------------------------------------------------------------------------------
     @property
